@@ -197,6 +197,79 @@ def check(ctx):
     ctx.rule("C06.R7", "json_schema() drops a keyword only by comparing its value with the parameter's default: never by truthiness / emptiness / type of the value (const=\"\", enum=[], default=0 are meaningful)", floor=2)
     keyword_filter_rule(ctx)
 
+    # ---------------- R8: every source of a schema is enforced by the deserializer
+    ctx.rule("C06.R8", "each source of schema() metadata the schema builder merges (type, generic origin, Annotated, field, per-call) is merged as constraints by the method compiler, and the merged factory is kept", floor=10)
+    schema_source_rule(ctx)
+
+
+SOURCE_KINDS = {
+    "type": (("get_schema(tp)",), "the schema() registered on the type"),
+    "origin": (("get_schema(get_origin(tp))", "get_schema(get_origin_or_type(tp))"), "the schema() registered on the generic origin"),
+    "annotated": (("annotation.get(SCHEMA_METADATA)", "annotation[SCHEMA_METADATA]"), "schema() metadata in Annotated"),
+    "field": (("f.schema", "field.schema"), "schema() metadata of an object field"),
+    "call": (("schema",), "the per-call schema argument"),
+}
+
+
+def schema_source_rule(ctx):
+    model = ctx.model
+    sides = {
+        "schema": [fi for fi in model.functions.values() if fi.module.name == "apischema.json_schema.schema"],
+        "method": [fi for fi in model.functions.values() if fi.module.name == "apischema.deserialization"],
+    }
+    found = {side: {} for side in sides}
+    for side, fns in sides.items():
+        for fi in fns:
+            parents = {c: p for p in ast.walk(fi.node) for c in ast.iter_child_nodes(p)}
+            for n in walk_no_nested(fi.node, include_lambda=True):
+                if not isinstance(n, (ast.Call, ast.Attribute, ast.Subscript, ast.Name)):
+                    continue
+                t = norm(n)
+                for kind, (forms, _) in SOURCE_KINDS.items():
+                    if t not in forms:
+                        continue
+                    if kind == "call":
+                        # the per-call `schema` parameter of the public entry points
+                        if not (isinstance(n, ast.Name) and "schema" in fi.params and fi.parent is None and fi.cls is None and isinstance(n.ctx, ast.Load)):
+                            continue
+                        if side == "schema" and fi.name not in ("deserialization_schema", "_schema"):
+                            continue
+                    if kind == "field" and side == "method" and not isinstance(parents.get(n), ast.Call):
+                        continue
+                    found[side].setdefault(kind, []).append((fi, n, parents))
+    for kind, (forms, what) in SOURCE_KINDS.items():
+        for side in ("schema", "method"):
+            ctx.check(bool(found[side].get(kind)), "C06.R8", f"{kind}:{side}", None,
+                      f"{what} is consumed by the {'method compiler' if side == 'schema' else 'schema builder'} but no longer by the {'schema builder' if side == 'schema' else 'method compiler'}: schema and deserializer disagree on the constraints of such types",
+                      None, None, detail=f"one of {forms}")
+        # on the method side the source must flow into `X.merge(get_constraints(<source>), ...)` whose result is kept
+        for fi, n, parents in found["method"].get(kind, []):
+            gc = parents.get(n)
+            if not (isinstance(gc, ast.Call) and (dotted(gc.func) or "") == "get_constraints"):
+                continue
+            mg = parents.get(gc)
+            construct = f"{fi.qualname}:{kind}"
+            ok = isinstance(mg, ast.Call) and isinstance(mg.func, ast.Attribute) and mg.func.attr == "merge"
+            kept = False
+            if ok:
+                p = parents.get(mg)
+                while isinstance(p, (ast.Attribute, ast.Call)):
+                    p = parents.get(p)
+                kept = isinstance(p, (ast.Assign, ast.Return, ast.AnnAssign, ast.ListComp, ast.List, ast.Tuple, ast.GeneratorExp, ast.comprehension, ast.keyword)) or isinstance(p, ast.Starred)
+            ctx.check(ok and kept, "C06.R8", construct, n, f"`{short(gc, 60)}`: the constraints of this source are computed but not merged into the factory that is used (the JSON schema still shows them)", fi, n, detail="factory = factory.merge(get_constraints(<source>), ...)")
+        ctx.check(any(isinstance(p.get(n), ast.Call) and (dotted(p.get(n).func) or "") == "get_constraints" for fi, n, p in found["method"].get(kind, [])), "C06.R8", f"{kind}:constraints", None,
+                  f"{what} never reaches get_constraints() in the method compiler", None, None, detail="get_constraints(<source>)")
+    # the generic-origin source is consulted under the same guard on both sides
+    for side in ("schema", "method"):
+        for fi, n, parents in found[side].get("origin", []):
+            p = parents.get(n)
+            guarded = False
+            while p is not None:
+                if isinstance(p, ast.If) and norm(p.test) == "get_args(tp)":
+                    guarded = True
+                p = parents.get(p)
+            ctx.check(guarded, "C06.R8", f"{fi.qualname}:origin-guard", n, "the schema of the generic origin is consulted without the `get_args(tp)` guard its sibling uses", fi, n, detail="if get_args(tp)")
+
 
 def keyword_filter_rule(ctx):
     model = ctx.model
@@ -252,6 +325,12 @@ def mutants(mb):
     mb.add_text("nullable-merge-keeps-const", J, "            and not any(\"const\" in res or \"enum\" in res for res in results)\n", "", "C06.R6", "nullable-merge")
     mb.add_text("type-list-drops-keywords", J, "        elif all(alt.keys() == {\"type\"} for alt in results):", "        elif all(\"type\" in alt for alt in results):", "C06.R6", "type-list")
     mb.add_text("keyword-filter-emptiness", "apischema/json_schema/types.py", "                v != _json_schema_params[k].default\n", "                (v != _json_schema_params[k].default and bool(v))\n", "C06.R7", "wrapper")
+    mb.add_text("annotated-constraints-dropped", D, "                factory = factory.merge(\n                    get_constraints(annotation.get(SCHEMA_METADATA)),\n                    annotation.get(\n                        VALIDATORS_METADATA, ValidatorsMetadata(())\n                    ).validators,\n                )\n", "                pass\n", "C06.R8", "annotated")
+    mb.add_text("type-constraints-not-kept", D, "            factory = factory.merge(get_constraints(get_schema(tp)), get_validators(tp))\n", "            factory.merge(get_constraints(get_schema(tp)), get_validators(tp))\n", "C06.R8", "type")
+    mb.add_text("origin-constraints-dropped", D, "            if get_args(tp):\n                factory = factory.merge(\n                    get_constraints(get_schema(get_origin(tp))),\n                    get_validators(get_origin(tp)),\n                )\n", "", "C06.R8", "origin")
+    mb.add_text("field-constraints-dropped", D, "            self.visit_with_conv(f.type, f.deserialization).merge(\n                get_constraints(f.schema), f.validators\n            )", "            self.visit_with_conv(f.type, f.deserialization)", "C06.R8", "field")
+    mb.add_text("neg-nullable-guard-rewritten", J, "            and not any(\"const\" in res or \"enum\" in res for res in results)\n", "            and all(\"const\" not in res and \"enum\" not in res for res in results)\n", negative=True)
+    mb.add_text("neg-origin-merge-local", D, "            if get_args(tp):\n                factory = factory.merge(\n                    get_constraints(get_schema(get_origin(tp))),\n                    get_validators(get_origin(tp)),\n                )\n", "            if get_args(tp):\n                origin = get_origin(tp)\n                factory = factory.merge(\n                    get_constraints(get_schema(get_origin(tp))),\n                    get_validators(origin),\n                )\n", negative=True)
     mb.add_text("aggregate-order", J, "            if field.flattened:\n                self._object_schema(cls, field)  # check the field is an object", "            if False:\n                self._object_schema(cls, field)  # check the field is an object", "C06.R5", "aggregate")
     mb.add_text("mapping-any-keys", J, "        if \"type\" not in key or key[\"type\"] != JsonType.STRING:\n            raise ValueError(\"Mapping types must have string-convertible keys\")\n", "", "C06.R4", "mapping")
     mb.add_text("schema-hook-missing", J, "    def any(self) -> JsonSchema:\n        return JsonSchema()\n", "", "C06.R1", "any")
